@@ -142,6 +142,7 @@ def _compute_integral_ir(
     argument_shape: tuple[int, ...],
     visualise: bool,
     p: dict,
+    point_values_vary: bool = False,
 ) -> tuple[
     dict[str, npt.NDArray[np.float64]],
     dict[str, _table_types],
@@ -189,6 +190,17 @@ def _compute_integral_ir(
         rtol=p["table_rtol"],
         atol=p["table_atol"],
     )
+    if point_values_vary:
+        # A table of a one-point rule looks constant over the points, but its
+        # values belong to that point. When the kernel has other quadrature
+        # rules too, such values must not go to the scope shared by all rules
+        # (where the first rule to define an expression wins): treat them as
+        # varying, i.e. evaluate them inside the loop of this rule
+        retyped = {"piecewise": "varying", "fixed": "uniform"}
+        for mt, tr in mt_table_reference.items():
+            if tr.ttype in retyped:
+                mt_table_reference[mt] = tr._replace(ttype=retyped[tr.ttype])  # type: ignore
+
     # Fetch unique tables for this quadrature rule
     table_types: dict[str, _table_types] = {v.name: v.ttype for v in mt_table_reference.values()}
     tables: dict[str, npt.NDArray[np.float64]] = {
@@ -439,6 +451,8 @@ def compute_integral_ir(
                 argument_shape,
                 visualise,
                 p,
+                point_values_vary=len(integrands_on_domain) > 1
+                and quadrature_rule.points.shape[0] == 1,
             )
 
             # Add tables and types for this quadrature rule to global tables dict
